@@ -223,3 +223,14 @@ def instantiate(scn, pools, rnd):
             d["xd"] = xd
         steps.append(d)
     return steps
+
+
+def pvs_table(run, shapes, tag):
+    """Exhaustive TLC run of the design-level transposition-table model (probe / store / replacement with bound kinds)
+    on abstract trees with transpositions: value unchanged by the table, every entry left behind is sound."""
+    for shape in shapes:
+        r = core.tlc_mc("PvsTable", "mc/PvsTable_%s.cfg" % shape, workers=8, tag="pvstable-%s-%s" % (tag, shape))
+        if r["violated"]:
+            raise core.ToolError("PvsTable.tla violates %s on shape %s (design-level model)" % (r["violated"], shape))
+        r["output"] = ""
+        run.add_mc(r, {"shape": shape, "leaf_values": "-1..1", "StrictLower": False})
